@@ -16,6 +16,7 @@
 package main
 
 import (
+	"encoding/binary"
 	"encoding/hex"
 	"encoding/json"
 	"fmt"
@@ -26,6 +27,7 @@ import (
 	"sort"
 	"sync"
 	"sync/atomic"
+	"time"
 
 	"verif/checks/c15/defs"
 
@@ -49,8 +51,8 @@ func hexCap(b []byte) string {
 
 // decode runs one decoder on a private copy of in, converting a panic into a
 // value.
-func decode(u *defs.Unit, in []byte, unsafe bool) (c defs.Codec, err error, pan any) {
-	c = u.New()
+func decode(inst *defs.Inst, in []byte, unsafe bool) (c defs.Codec, err error, pan any) {
+	c = inst.Reset()
 	defer func() {
 		if r := recover(); r != nil {
 			pan = fmt.Sprintf("%v\n%s", r, debug.Stack())
@@ -103,13 +105,13 @@ type counters struct {
 }
 
 // try runs both oracles that do not need exclusive use of the process.
-func try(u *defs.Unit, stage string, in []byte, unsafe bool, cn *counters, report func(problem)) {
+func try(u *defs.Unit, inst *defs.Inst, stage string, in []byte, unsafe bool, cn *counters, report func(problem)) {
 	mode := "ReadFrom"
 	if unsafe {
 		mode = "UnsafeReadFrom"
 	}
 	cn.evals++
-	c, err, pan := decode(u, in, unsafe)
+	c, err, pan := decode(inst, in, unsafe)
 	art := func() map[string]any {
 		return map[string]any{"type": u.Name, "version": u.Version, "mode": mode, "stage": stage, "input_hex": hexCap(in), "input_len": len(in)}
 	}
@@ -205,41 +207,114 @@ func baseEncodings(u *defs.Unit) []*defs.Enc {
 	return out
 }
 
-// hugeInputs are the inputs of the allocation pass: every byte of every
-// length prefix replaced by 7f/fe/ff, and every whole prefix replaced by the
-// largest positive / most negative claims of its width.
-func hugeInputs(e *defs.Enc, fn func(in []byte, what string)) {
-	for _, m := range e.Marks {
-		for k := 0; k < m.Len; k++ {
-			for _, s := range []byte{0x7f, 0xfe, 0xff} {
-				if e.B[m.Off+k] == s {
-					continue
-				}
-				in := append([]byte{}, e.B...)
-				in[m.Off+k] = s
-				fn(in, fmt.Sprintf("%s@%d+%d=%02x", m.What, m.Off, k, s))
+// claim decodes the length prefix of the given form at off; negative or
+// malformed prefixes claim nothing.
+func claim(in []byte, off int, form string) int64 {
+	uv := func() (uint32, bool) {
+		var v uint32
+		for i := 0; i < 5 && off+i < len(in); i++ {
+			b := in[off+i]
+			v |= uint32(b&0x7f) << (7 * i)
+			if b < 0x80 {
+				return v, true
 			}
 		}
-		var whole [][]byte
-		switch {
-		case m.Len == 4:
-			whole = [][]byte{{0x7f, 0xff, 0xff, 0xff}, {0x7f, 0xff, 0xff, 0xfe}, {0x00, 0xff, 0xff, 0xff}, {0x80, 0x00, 0x00, 0x00}}
-		case m.Len == 2 && m.What == "strlen":
-			whole = [][]byte{{0x7f, 0xff}, {0x80, 0x00}}
-		case m.What == "tagcount":
-			// a claimed count is iterated, not allocated; counts above two
-			// uvarint bytes are left out (see evidence note on decode time)
-			whole = [][]byte{{0xff, 0x7f}}
-		default: // uvarint / varint prefixes: 2^31-1, 2^32-1, 2^28
-			whole = [][]byte{{0xff, 0xff, 0xff, 0xff, 0x07}, {0xff, 0xff, 0xff, 0xff, 0x0f}, {0xfe, 0xff, 0xff, 0xff, 0x0f}, {0x80, 0x80, 0x80, 0x80, 0x01}}
+		return 0, false
+	}
+	switch form {
+	case "i32":
+		if off+4 <= len(in) {
+			if v := int32(binary.BigEndian.Uint32(in[off:])); v > 0 {
+				return int64(v)
+			}
 		}
-		for _, w := range whole {
-			in := append([]byte{}, e.B[:m.Off]...)
-			in = append(in, w...)
-			in = append(in, e.B[m.Off+m.Len:]...)
-			fn(in, fmt.Sprintf("%s@%d=%x", m.What, m.Off, w))
+	case "i16":
+		if off+2 <= len(in) {
+			if v := int16(binary.BigEndian.Uint16(in[off:])); v > 0 {
+				return int64(v)
+			}
+		}
+	case "uvarint":
+		if v, ok := uv(); ok {
+			return int64(v)
+		}
+	case "varint":
+		if v, ok := uv(); ok {
+			if z := int32(v>>1) ^ -int32(v&1); z > 0 {
+				return int64(z)
+			}
 		}
 	}
+	return 0
+}
+
+type hugeInput struct {
+	in    []byte
+	what  string
+	claim int64
+}
+
+// maxTagCountClaim: a claimed tag count is iterated, not allocated, and the
+// loop does not stop when the input is exhausted (see note_decode_time), so
+// larger claims are left out of the structured inputs.
+const maxTagCountClaim = 0x3fff
+
+// hugeInputs lists, for one length prefix, the encodings with that prefix
+// changed to claim much more than is there: every byte of the prefix replaced
+// by 7f/fe/ff and the whole prefix replaced by a ladder 0x7f, 0xff, 0xfff, ...
+// up to the largest value of its form plus the negative extremes. The list is
+// ordered by claimed length so that, if a clamp is missing, the smallest
+// over-allocation is observed first.
+func hugeInputs(e *defs.Enc, m defs.Mark) (out []hugeInput, skipped int) {
+	add := func(in []byte, what string) {
+		c := claim(in, m.Off, m.Form)
+		if m.What == "tagcount" && c > maxTagCountClaim {
+			skipped++
+			return
+		}
+		out = append(out, hugeInput{in, what, c})
+	}
+	for k := 0; k < m.Len; k++ {
+		for _, s := range []byte{0x7f, 0xfe, 0xff} {
+			if e.B[m.Off+k] == s {
+				continue
+			}
+			in := append([]byte{}, e.B...)
+			in[m.Off+k] = s
+			add(in, fmt.Sprintf("%s@%d+%d=%02x", m.What, m.Off, k, s))
+		}
+	}
+	var whole [][]byte
+	ladder := []uint32{0x7f, 0xff, 0xfff, 0xffff, 0xfffff, 0xffffff, 0xfffffff, 0x7fffffff}
+	switch m.Form {
+	case "i32":
+		for _, v := range append(ladder, 0x80000000, 0xfffffffe) {
+			whole = append(whole, binary.BigEndian.AppendUint32(nil, v))
+		}
+	case "i16":
+		for _, v := range []uint16{0x7f, 0xff, 0xfff, 0x7fff, 0x8000, 0xfffe} {
+			whole = append(whole, binary.BigEndian.AppendUint16(nil, v))
+		}
+	case "uvarint":
+		for _, v := range append(ladder, 0xffffffff) {
+			whole = append(whole, defs.AppendUvarint(nil, v))
+		}
+	case "varint":
+		for _, v := range ladder {
+			whole = append(whole, defs.AppendVarint(nil, int32(v)))
+		}
+		whole = append(whole, defs.AppendVarint(nil, -2), defs.AppendVarint(nil, -1<<31))
+	case "i8":
+		whole = [][]byte{{0x00}, {0x80}}
+	}
+	for _, w := range whole {
+		in := append([]byte{}, e.B[:m.Off]...)
+		in = append(in, w...)
+		in = append(in, e.B[m.Off+m.Len:]...)
+		add(in, fmt.Sprintf("%s@%d=%x", m.What, m.Off, w))
+	}
+	sort.SliceStable(out, func(i, j int) bool { return out[i].claim < out[j].claim })
+	return out, skipped
 }
 
 func main() {
@@ -259,7 +334,7 @@ func main() {
 	thorough := ev.Thorough()
 
 	r := ev.New("C16", "exploration")
-	r.Rule("every kmsg decoder (ReadFrom and UnsafeReadFrom of every request/response through RequestForKey/ResponseForKey 0..MaxKey, every stand-alone embedded type, hand written Record and StickyMemberMetadata) at min and max version (quick) / every version (thorough) on: (a) all 65,793 byte strings of length <= 2 (thorough: all strings of length 3 for the 30 types with the fewest fields, see three_byte_rule); (b) every proper prefix of the reference encodings of the two C15 base valuations (all-default, all-populated); (c) every single-byte substitution from {00,01,7f,80,fe,ff} at every position of those encodings; (d) allocation pass, one goroutine: every byte of every length prefix (array/string/bytes length, tag count, tag size, struct marker) of those encodings replaced by 7f/fe/ff and every whole prefix replaced by extreme claims. Distinct = (type, version, stage, decoder, outcome) classes; distinct structured inputs counted separately")
+	r.Rule("every kmsg decoder (ReadFrom and UnsafeReadFrom of every request/response through RequestForKey/ResponseForKey 0..MaxKey, every stand-alone embedded type, hand written Record and StickyMemberMetadata) at min and max version (quick) / every version (thorough) on: (a) all 65,793 byte strings of length <= 2 (thorough: all strings of length 3 for the 30 types with the fewest fields, see three_byte_rule); (b) every proper prefix of the reference encodings of the two C15 base valuations (all-default, all-populated); (c) every single-byte substitution from {00,01,7f,80,fe,ff} at every position of those encodings; (d) allocation pass, one goroutine: every byte of every length prefix (array/string/bytes length, tag count, tag size, struct marker) of those encodings replaced by 7f/fe/ff and every whole prefix replaced by a ladder of claims 0x7f, 0xff, 0xfff .. 0x7fffffff (and the negative extremes), smallest claim first; the same inputs also go through the panic and round-trip oracles. Distinct = (type, version, stage, decoder, outcome) classes; distinct structured inputs counted separately")
 	r.Assume("allocation is measured as runtime.MemStats.TotalAlloc delta around one decode while no other goroutine of the process runs harness code; a measurement above the bound is repeated three times and the minimum is used",
 		"bound: delta <= 1 KiB * len(input) + 64 KiB (DESIGN.md C16)",
 		"equality after re-encode/re-decode uses the C15 normalisation (nil == empty only where the field is not nullable at that version), floats by bit pattern",
@@ -289,7 +364,7 @@ func main() {
 		byType[u.Name] = append(byType[u.Name], u)
 	}
 	sort.Strings(typeNames)
-	var units []*defs.Unit     // for (b), (c), (d)
+	var units []*defs.Unit      // for (b), (c), (d)
 	var sweepUnits []*defs.Unit // for (a)
 	for _, n := range typeNames {
 		us := byType[n]
@@ -305,48 +380,68 @@ func main() {
 		}
 	}
 
-	// ---- (d) allocation pass, single goroutine, before any worker starts
-	var allocEvals, allocMax int64
+	phase := map[string]float64{}
+	t0 := time.Now()
+	lap := func(name string) { phase[name] = time.Since(t0).Seconds(); t0 = time.Now() }
+
+	// ---- (d) allocation pass, single goroutine, before any worker starts.
+	// Inputs of one prefix are ordered by claimed length; the pass (and the
+	// check) stops at the first violation, because with a missing clamp the
+	// larger claims would try to allocate gigabytes.
+	var allocEvals, allocMax, tagcountSkipped int64
 	var allocMaxAt string
-	func() {
-		for _, u := range units {
-			modes := []bool{false}
-			if thorough {
-				modes = []bool{false, true}
-			}
-			for _, e := range baseEncodings(u) {
-				hugeInputs(e, func(in []byte, what string) {
+	allocViolated := false
+	modes := []bool{false}
+	if thorough {
+		modes = []bool{false, true}
+	}
+alloc:
+	for _, u := range units {
+		for _, e := range baseEncodings(u) {
+			for _, m := range e.Marks {
+				hs, sk := hugeInputs(e, m)
+				tagcountSkipped += int64(sk)
+				for _, h := range hs {
 					for _, unsafe := range modes {
 						allocEvals++
-						d, pan := allocDelta(u, in, unsafe)
+						d, pan := allocDelta(u, h.in, unsafe)
 						if pan != nil {
-							continue // reported by the panic oracle in (c)/(d2) below
+							continue // the panic oracle of the parallel part reports it
 						}
-						bound := uint64(allocPerByte*len(in) + allocSlack)
-						if d > bound {
-							for k := 0; k < 3; k++ {
-								if d2, _ := allocDelta(u, in, unsafe); d2 < d {
-									d = d2
-								}
+						bound := uint64(allocPerByte*len(h.in) + allocSlack)
+						for k := 0; k < 3 && d > bound; k++ {
+							if d2, _ := allocDelta(u, h.in, unsafe); d2 < d {
+								d = d2
 							}
 						}
 						if int64(d) > allocMax {
-							allocMax, allocMaxAt = int64(d), fmt.Sprintf("%s %s (%d bytes in)", u, what, len(in))
+							allocMax, allocMaxAt = int64(d), fmt.Sprintf("%s %s (%d bytes in)", u, h.what, len(h.in))
 						}
 						if d > bound {
 							mode := "ReadFrom"
 							if unsafe {
 								mode = "UnsafeReadFrom"
 							}
-							report(problem{u.Name + ":alloc", fmt.Sprintf("%s v%d %s allocates %d bytes for a %d-byte input (bound %d): %s, input %s", u.Name, u.Version, mode, d, len(in), bound, what, hexCap(in)),
-								map[string]any{"type": u.Name, "version": u.Version, "mode": mode, "stage": "alloc", "kind": "alloc", "input_hex": hexCap(in), "input_len": len(in), "allocated": d, "bound": bound, "mutation": what}})
+							report(problem{u.Name + ":alloc", fmt.Sprintf("%s v%d %s allocates %d bytes for a %d-byte input (bound %d): %s claims %d, input %s", u.Name, u.Version, mode, d, len(h.in), bound, h.what, h.claim, hexCap(h.in)),
+								map[string]any{"type": u.Name, "version": u.Version, "mode": mode, "stage": "alloc", "kind": "alloc", "input_hex": hexCap(h.in), "input_len": len(h.in), "allocated": d, "bound": bound, "mutation": h.what, "claimed": h.claim}})
+							allocViolated = true
+							break alloc
 						}
 					}
-				})
+				}
 			}
 		}
-	}()
+	}
 	r.Evals(allocEvals)
+	lap("allocation_pass")
+	r.Set("allocation_pass_evaluations", allocEvals)
+	r.Set("allocation_pass_max_bytes", allocMax)
+	r.Set("allocation_pass_max_at", allocMaxAt)
+	if allocViolated {
+		r.NotExhaustive("stopped at the first allocation violation: with an unclamped length the remaining inputs would ask the runtime for gigabytes")
+		r.Set("phase_seconds", phase)
+		r.Finish()
+	}
 
 	// ---- parallel part
 	type job func(cn *counters)
@@ -380,17 +475,18 @@ func main() {
 		mu.Unlock()
 	}
 
-	// (b) + (c) + panic/round-trip on the (d) inputs
+	// (b) + (c) + panic/round-trip oracles on the (d) inputs
 	for _, u := range units {
 		u := u
 		jobs <- func(cn *counters) {
+			inst := u.NewInst()
 			seen := map[uint64]struct{}{}
 			run := func(stage string, in []byte) {
 				h := fnv.New64a()
 				h.Write(in)
 				seen[h.Sum64()] = struct{}{}
-				try(u, stage, in, false, cn, report)
-				try(u, stage, in, true, cn, report)
+				try(u, inst, stage, in, false, cn, report)
+				try(u, inst, stage, in, true, cn, report)
 			}
 			for _, e := range baseEncodings(u) {
 				b0 := *cn
@@ -405,6 +501,12 @@ func main() {
 				}
 				note(u, "truncation", b0, cn)
 				b0 = *cn
+				tagAt := map[int]bool{} // offsets of tag counts: claims above maxTagCountClaim are left out
+				for _, m := range e.Marks {
+					if m.What == "tagcount" {
+						tagAt[m.Off] = true
+					}
+				}
 				for i := range e.B {
 					for _, s := range subs {
 						if e.B[i] == s {
@@ -412,12 +514,21 @@ func main() {
 						}
 						in := append([]byte{}, e.B...)
 						in[i] = s
+						if tagAt[i] && claim(in, i, "uvarint") > maxTagCountClaim {
+							atomic.AddInt64(&tagcountSkipped, 1)
+							continue
+						}
 						run("substitution", in)
 					}
 				}
 				note(u, "substitution", b0, cn)
 				b0 = *cn
-				hugeInputs(e, func(in []byte, _ string) { run("huge-length", in) })
+				for _, m := range e.Marks {
+					hs, _ := hugeInputs(e, m)
+					for _, h := range hs {
+						run("huge-length", h.in)
+					}
+				}
 				note(u, "huge-length", b0, cn)
 			}
 			atomic.AddInt64(&structured, int64(len(seen)))
@@ -428,15 +539,19 @@ func main() {
 	for _, u := range sweepUnits {
 		u := u
 		jobs <- func(cn *counters) {
+			inst := u.NewInst()
 			b0 := *cn
+			var buf [2]byte
 			for _, unsafe := range []bool{false, true} {
-				try(u, "len0", []byte{}, unsafe, cn, report)
+				try(u, inst, "len0", buf[:0], unsafe, cn, report)
 				for a := 0; a < 256; a++ {
-					try(u, "len1", []byte{byte(a)}, unsafe, cn, report)
+					buf[0] = byte(a)
+					try(u, inst, "len1", buf[:1], unsafe, cn, report)
 				}
 				for a := 0; a < 256; a++ {
 					for b := 0; b < 256; b++ {
-						try(u, "len2", []byte{byte(a), byte(b)}, unsafe, cn, report)
+						buf[0], buf[1] = byte(a), byte(b)
+						try(u, inst, "len2", buf[:2], unsafe, cn, report)
 					}
 				}
 			}
@@ -471,21 +586,24 @@ func main() {
 			if tc >= 0 {
 				excludedUnits = append(excludedUnits, fmt.Sprintf("%s@%d", u, tc))
 			}
-			for a := 0; a < 256; a++ {
-				a := a
+			for a := 0; a < 256; a += 16 {
+				a0 := a
 				jobs <- func(cn *counters) {
+					inst := u.NewInst()
 					b0 := *cn
 					in := make([]byte, 3)
-					for b := 0; b < 256; b++ {
-						if (tc == 0 && a >= 0x80) || (tc == 1 && b >= 0x80) {
-							// three_byte_rule: see evidence
-							atomic.AddInt64(&excluded3, 2*256)
-							continue
-						}
-						for c := 0; c < 256; c++ {
-							in[0], in[1], in[2] = byte(a), byte(b), byte(c)
-							try(u, "len3", in, false, cn, report)
-							try(u, "len3", in, true, cn, report)
+					for a := a0; a < a0+16; a++ {
+						for b := 0; b < 256; b++ {
+							if (tc == 0 && a >= 0x80) || (tc == 1 && b >= 0x80) {
+								// three_byte_rule: see evidence
+								atomic.AddInt64(&excluded3, 2*256)
+								continue
+							}
+							for c := 0; c < 256; c++ {
+								in[0], in[1], in[2] = byte(a), byte(b), byte(c)
+								try(u, inst, "len3", in, false, cn, report)
+								try(u, inst, "len3", in, true, cn, report)
+							}
 						}
 					}
 					note(u, "len3", b0, cn)
@@ -495,6 +613,9 @@ func main() {
 	}
 	close(jobs)
 	wg.Wait()
+	lap("parallel_part")
+	r.Set("phase_seconds", phase)
+	r.Set("tag_count_claims_above_16383_left_out", tagcountSkipped)
 
 	for k := range outcomes {
 		r.Distinct(k)
@@ -517,9 +638,6 @@ func main() {
 	r.Set("type_versions_blind_sweep", len(sweepUnits))
 	r.Set("uncovered_types", reg.Uncovered)
 	r.Set("decoders", "ReadFrom + UnsafeReadFrom of every registry type; kmsg has no multi-record reader (the record/message-set loops live unexported in pkg/kgo/source.go and are outside this property's anchors); MessageV0, MessageV1, Record, RecordBatch, Header and StickyMemberMetadata are units of the registry")
-	r.Set("allocation_pass_evaluations", allocEvals)
-	r.Set("allocation_pass_max_bytes", allocMax)
-	r.Set("allocation_pass_max_at", allocMaxAt)
 	r.Set("successful_decodes_round_tripped", total.rt)
 	r.Set("distinct_structured_inputs", structured)
 	if thorough {
@@ -573,7 +691,7 @@ func replay(reg *defs.Registry, path string) {
 			bad = d > bound
 		}
 		var cn counters
-		try(u, "replay", in, unsafe, &cn, func(p problem) { bad = true; fmt.Println("REPLAY:", p.What) })
+		try(u, u.NewInst(), "replay", in, unsafe, &cn, func(p problem) { bad = true; fmt.Println("REPLAY:", p.What) })
 		if f.Artefact.Kind == "valid-rejected" && cn.ok == 0 {
 			bad = true
 			fmt.Println("REPLAY: valid encoding still rejected")
